@@ -44,6 +44,7 @@ OPS: List[Rec] = [
     op("FW_a1", "send", to="a1", ev="FW_a1"),
     op("STD_a1_X_50_i1", "send", to="a1", ev="X", delay=50, sid="i1"),
     op("STD_a2_Y_80_i1", "send", to="a2", ev="Y", delay=80, sid="i1"),
+    op("STD_a1_Y_70_i1", "send", to="a1", ev="Y", delay=70, sid="i1"),   # same id, same target: supersedes a sleeping send
     op("STD_a1_Y_50", "send", to="a1", ev="Y", delay=50),
     op("CAN_i1", "cancel", sid="i1"),
     op("CAN_zz", "cancel", sid="zz"),
@@ -231,7 +232,9 @@ def canon_astate(s: dict) -> dict:
     alive = sorted(s.get("alive") or [])
     return {"alive": alive, "orphans": list(s.get("orphans") or []), "kids": {k: sorted(v) for k, v in fix(s.get("kids") or {}).items() if k in alive or k == "m"},
             "sys": fix(s.get("sys") or {}), "rec": {k: list(v) for k, v in fix(s.get("rec") or {}).items() if v},
-            "pend": sorted([list(p) for p in (s.get("pend") or [])])}
+            "pend": sorted([list(p) for p in (s.get("pend") or [])]),
+            # registration numbers: part of the state's identity (history), never compared with the engine
+            "gen": sorted(s.get("gen") or [])}
 
 
 def model_check(workdir: str, ops: List[Rec], depth: int, maxactors: int, workers=4):
